@@ -228,6 +228,7 @@ MON_EXPRS = {
     "c10obs_shifted": "restart_obs_bad c10_restart_obs_ok 1 0 (ms_k (fst @CASE@)) (ksteps (snd @CASE@))",
     "c10conv": "conv_trace_bad 2 0 (ms_k (fst @CASE@)) (ksteps (snd @CASE@))",
     "c10ahead": "conv_trace_bad 1 0 (ms_k (fst @CASE@)) (ksteps (snd @CASE@))",
+    "c06": "first_bad c06_obs_ok 0 (obs_of (snd @CASE@))",
     "c11sm": "c11_sm_bad 0 None (obs_of (snd @CASE@))",
     "c11g": "c11_g_bad 0 [] (obs_of (snd @CASE@))",
     "c11cur": "c11_cur_bad 0 [] None (obs_of (snd @CASE@))",
@@ -240,7 +241,7 @@ def mon_failed(val):
     return val not in ("None", "true")
 
 
-def mirror_check(c, prop_file, monitors, what, quick=(40, 30), thorough=(600, 40), extra=()):
+def mirror_check(c, prop_file, monitors, what, quick=(40, 30), thorough=(600, 40), extra=(), prove=True):
     """Common body of the mirror-kernel checks. monitors: names from MON_EXPRS that decide this property."""
     c.trusted += [
         "translator /verif/translate for kState.FindView and the result enumerations (Gen/Kernel.v), thresholds (Gen/Math.v)",
@@ -252,15 +253,18 @@ def mirror_check(c, prop_file, monitors, what, quick=(40, 30), thorough=(600, 40
     ]
     c.assumes += ["inputs are delivered sequentially (one Handle* call at a time); concurrent callers are outside this model",
                   "hash collisions among generated headers / validator sets do not occur (vs_ok / hd_ok flags set by construction)"]
-    c.grep_gate()
+    if prove:
+        c.grep_gate()
     ncases, nops = quick if c.tier == "quick" else thorough
     tok, tlog = c.translate(only=["Gen/Kernel.v", "Gen/Math.v"])
     proved = False
     if not tok:
         c.obligations.append("translate Gen/Kernel.v")
         c.broken = {"file": "translate", "log": tlog[-800:]}
-    else:
+    elif prove:
         proved = c.prove(prop_file)
+    else:
+        proved = True  # the caller re-checks its own Properties file
     binary, blog = c.go_build("mirror")
     if binary is None:
         c.fail_obligation("harness-build", blog[-1500:])
@@ -320,8 +324,10 @@ def mirror_check(c, prop_file, monitors, what, quick=(40, 30), thorough=(600, 40
         c.fail_obligation("Properties/%s.v (%s)" % (prop_file, b["file"]), b["log"],
                           {"searched_cases": len(usable), "searched_steps": n_steps})
     distinct = len(set((op, res) for k in usable for op, res, _ in k["steps"]))
-    c.samples = [{"case_seed": k["seed"], "first_steps": [{"op": op[:400], "result": res} for op, res, _ in k["steps"][:2]]} for k in usable[:3]]
-    c.coverage.update({
+    if prove:
+        c.samples = [{"case_seed": k["seed"], "first_steps": [{"op": op[:400], "result": res} for op, res, _ in k["steps"][:2]]} for k in usable[:3]]
+    cov = c.coverage if prove else c.coverage.setdefault("mirror_histories", {})
+    cov.update({
         "evaluations": n_steps,
         "distinct_nontrivial": distinct,
         "rule": "histories generated by harness/mirror from one seed (honest progress, nil/next-round/future/old votes, equivocation, "
